@@ -1574,4 +1574,40 @@ theorem valueSpec_latest {start : Rat} {fed : List TSample} {o : Out} (h : Value
   · rw [hval, sumOps_perm hperm]
 
 
+/-! ## a failing metrics store: the aborted race has written a prefix of what the healthy race writes -/
+
+theorem driverRunF_prefix : ∀ (evs : List FEvent) (buf : List (Nat × TSample)) (stats : List (Nat × TaskStats)) (i : Nat)
+    (recs : List (Nat × Out)), (driverRunF buf stats evs)[i]? = some recs →
+    ∃ full, (driverRun buf stats (evs.map healed)).2[i]? = some full ∧ recs <+: full := by
+  intro evs
+  induction evs with
+  | nil => intro buf stats i recs h; simp [driverRunF] at h
+  | cons e evs ih =>
+    intro buf stats i recs h
+    cases e with
+    | update samples => exact ih (buf ++ samples) stats i recs h
+    | postProcess =>
+      simp only [driverRunF] at h
+      simp only [List.map_cons, healed, driverRun]
+      cases i with
+      | zero =>
+        simp only [List.getElem?_cons_zero, Option.some.injEq] at h ⊢
+        exact ⟨_, rfl, h ▸ List.prefix_refl _⟩
+      | succ i =>
+        simp only [List.getElem?_cons_succ] at h ⊢
+        exact ih [] _ i recs h
+    | faultyRun w =>
+      simp only [driverRunF] at h
+      simp only [List.map_cons, healed, driverRun]
+      cases i with
+      | zero =>
+        simp only [List.getElem?_cons_zero, Option.some.injEq] at h ⊢
+        refine ⟨_, rfl, ?_⟩
+        subst h
+        cases w with
+        | none => exact List.prefix_refl _
+        | some j => exact List.take_prefix _ _
+      | succ i => simp at h
+
+
 end Throughput
